@@ -153,6 +153,8 @@ Qed.
 Definition step_spec (U : uni) (e : event) (c0 : bytes) (d0 : nat) (c1 : bytes) (d1 : nat) (aux : nat) : Prop :=
   (* the cursor is within the buffer and on a character boundary *)
   (exists i1, boundary c1 d1 i1) /\
+  (* valid UTF-8 stays valid UTF-8 (no character is cut in half) *)
+  (valid c0 = true -> valid c1 = true) /\
   match e with
   | ECmd c =>
     exists i0 i1, boundary c0 d0 i0 /\ boundary c1 d1 i1 /\
@@ -175,9 +177,10 @@ Lemma check_step_sound U e c0 d0 c1 d1 aux :
   check_step U e c0 d0 c1 d1 aux = true -> step_spec U e c0 d0 c1 d1 aux.
 Proof.
   unfold check_step, step_spec, at_boundary. intros H.
-  apply andb_true_iff in H as [Hb H].
+  apply andb_true_iff in H as [Hb H]. apply andb_true_iff in Hb as [Hb Hval].
   destruct (rune_index c1 d1) as [i1|] eqn:E1; [|discriminate].
   split; [exists i1; apply rune_index_sound; exact E1|].
+  split; [intros Hv0; rewrite Hv0 in Hval; exact Hval|].
   destruct e as [r md|start|c|rs d]; auto.
   destruct (rune_index c0 d0) as [i0|] eqn:E0; [|discriminate].
   exists i0, i1.
